@@ -19,6 +19,7 @@ import Dos.Proofs.IOPacks
 import Dos.Proofs.IORepack
 import Dos.Proofs.IOImportProofs
 import Dos.Proofs.IOPackAllOProofs
+import Dos.Proofs.IORepackAllProofs
 import Dos.Proofs.ConcProofs
 import Dos.Proofs.BackupProofs
 import Dos.Proofs.BatchProofs
@@ -185,11 +186,12 @@ theorem C05_C06_C17_maintenance_safe {t : Tab} (wf : t.WF) {tg : Nat} (htg : 0 <
     (∀ order, (∀ k ∈ order, hasRow s k = true) → AllSafe t s (actsClean s order) (keysOf s)) ∧
     (∀ ks, AllSafe t s (actsDelete s ks) ((keysOf s).filter (fun k => !ks.contains k))) ∧
     (NoTmp s → ∀ p, p ≠ tmpId → ∀ zs, zs.length = (rowsOfPack s.rows p).length →
-        AllSafe t s (actsRepackPack t s p zs) (keysOf s)) := by
+        AllSafe t s (actsRepackPack t s p zs) (keysOf s)) ∧
+    (NoTmp s → ∀ plan, planOK t s plan = true → AllSafe t s (actsRepackAll t s plan) (keysOf s)) := by
   have inv := reach_inv wf htg h
   have hb := reach_bounded wf htg h hops
   exact ⟨fun order ho => Basic.safe_clean wf inv hb order ho, fun ks => Basic.safe_delete wf inv hb ks,
-    fun nt p hp zs hz => safe_repackPack wf inv hb nt p hp zs hz⟩
+    fun nt p hp zs hz => safe_repackPack wf inv hb nt p hp zs hz, fun nt plan hp => safe_repackAll wf inv hb nt plan hp⟩
 
 /-- with `do_fsync=False` power-loss safety is not promised, kill and fault safety still hold -/
 theorem C05_C17_nofsync_safe {t : Tab} (wf : t.WF) {tg : Nat} (htg : 0 < tg) {ops : List Op} {s : St}
